@@ -15,7 +15,8 @@ DECIDING = ["sym:projector", "sym:rank", "sym:fixed-by-permutations", "anti:proj
             "unique_perms:exact-once", "perfect_matchings:exact-once"]
 RULE = ("exhaustive: every (d, p) with d in 1..4, p in 1..4 and d^p <= 256, both values of the partial flag, every subsystem permutation sigma in S_p (model permutation "
         "operators); every permutation of up to 6 elements for the sign (all pairs for n <= 4, all pairs with a generator set beyond); every multiset with up to 6 "
-        "elements over up to 3 symbols; every even n <= 10 and odd n <= 9 for the matchings; a signature is the enumerated instance itself")
+        "elements over up to 3 symbols; every even n <= 10 and odd n <= 9 for the matchings; a signature is the enumerated instance itself; plus, per multiset, an abandoned "
+        "enumeration followed by a complete one and two interleaved enumerations")
 ASSUMPTIONS = [
     "perm_sign takes 1-indexed permutations (its documented convention)",
     "a single matching (n = 2) may be returned as a flat array",
